@@ -439,4 +439,114 @@ drv("cholesky_sample", "random",
     "def f(means, cov):\n    np.random.seed(4)\n    return random.cholesky_sample(cov, 4, means=means)\n", {"means": "mean3", "cov": "cov"},
     nd=(2,), dt=("f8", "f4", "i8"), func="random.cholesky_sample")
 
+# ------------------------------------------------------------------ fourth round (wave 3): state carried across calls
+# (c) ONE object reused for a second data set / parameter set through its public methods: a reference to the first arrays that
+# the object keeps and a later method writes through fails the obligation (static) and changes the snapshot of the FIRST set (dynamic)
+drv("reuse_WCS", "wcs",
+    "def f(x, y, lon, lat, x2, y2):\n    w = wcsutil.WCS(TAN_HDR)\n    a = w.image2sky(x, y)\n    b = w.sky2image(lon, lat, find=False)\n"
+    "    c = w.image2sky(x2, y2, distort=False)\n    return a, b, c\n",
+    {"x": "pix", "y": "pix", "lon": "wlon", "lat": "wlat", "x2": "pix", "y2": "pix"}, nd=(1, 0), func="WCS (one object, several calls)", n=4)
+drv("reuse_HTM", "htm",
+    "def f(ra, dec, ra2, dec2):\n    h = htm.HTM(7)\n    i1 = h.lookup_id(ra, dec)\n    m = h.match(ra, dec, ra2, dec2, 2.0, maxmatch=0)\n"
+    "    i2 = h.lookup_id(ra2, dec2)\n    b = h.bincount(0.05, 3.0, 4, ra2, dec2, ra, dec)\n    return i1, m, i2, b\n",
+    {"ra": "cra", "dec": "cdec", "ra2": "cra", "dec2": "cdec"}, nd=(1,), func="HTM (one object, several calls)")
+drv("reuse_Matcher", "htm",
+    "def f(ra, dec, ra1, dec1, ra3, dec3, radius):\n    m = htm.Matcher(8, ra, dec)\n    a = m.match(ra1, dec1, 1.0, maxmatch=1)\n"
+    "    b = m.match(ra3, dec3, radius, maxmatch=2)\n    c = m.match(ra, dec, 0.0, maxmatch=0)\n    return a, b, c\n",
+    {"ra": "cra", "dec": "cdec", "ra1": "cra", "dec1": "cdec", "ra3": "cra", "dec3": "cdec", "radius": "small"}, nd=(1,),
+    func="Matcher (one object, several calls; per-point radii; radius 0)")
+drv("reuse_Matcher_file", "htm",
+    "def f(ra, dec, ra1, dec1, fname: str):\n    m = htm.Matcher(8, ra, dec)\n    return m.match(ra1, dec1, 1.0, maxmatch=-1, file=fname)\n",
+    {"ra": "cra", "dec": "cdec", "ra1": "cra", "dec1": "cdec"}, nd=(1,), func="Matcher / Matcher.match", valuation="file=, maxmatch=-1")
+drv("reuse_Cosmo", "cosmo",
+    "def f(z1, z2):\n    c = cosmology.Cosmo(H0=70.0, omega_m=0.25)\n    a = c.Dc(z1, 5.0)\n    b = c.Dc(0.0, z2)\n    d = c.Da(z1, z2)\n"
+    "    e = c.sigmacritinv(z1, z2)\n    g = c.Dc(z1, z1)\n    return a, b, d, e, g\n",
+    {"z1": "z", "z2": "zhi"}, nd=(1,), func="Cosmo (one object, several calls; zmin=0; equal bounds)", n=4)
+drv("cosmo_ctor_h_omega_k", "cosmo",
+    "def f(z):\n    c = cosmology.Cosmo(h=0.7, flat=False, omega_m=0.3, omega_l=0.6, omega_k=0.1)\n    return c.Dm(0.0, z), c.Dl(z, 4.0)\n",
+    {"z": "z"}, func="Cosmo.Dm / Dl", valuation="h=, omega_k= given; zmin exactly 0", n=4)
+drv("reuse_QGauss", "integrate",
+    "def f(x, y, x2, y2):\n    q = integrate.QGauss(8)\n    a = q.integrate(x, y)\n    b = q.integrate(x2, y2, npts=5)\n    c = q.integrate(x, y2, 8)\n    return a, b, c\n",
+    {"x": "sx", "y": "x", "x2": "sx", "y2": "x"}, nd=(1,), func="QGauss (one object, npts changed between calls)")
+drv("reuse_Binner", "hist",
+    "def f(x, y, weights):\n    b = stat.Binner(x, y=y, weights=weights)\n    b.dohist(nbin=3, calc_stats=True)\n    b.dohist(nperbin=2, mergelast=True)\n"
+    "    b.calc_stats()\n    b.dohist(binsize=4.0, min=-40, max=40, rev=True)\n    b.calc_stats()\n    return b\n",
+    {"x": "x", "y": "x", "weights": "w"}, nd=(1,), func="Binner (dohist / calc_stats repeated with other options)")
+drv("reuse_SFile_two_tables", "recfile",
+    "def f(data, data2, fname: str):\n    with SFile(fname, 'w', delim=',', padnull=True) as sf:\n        sf.write(data)\n        sf.write(data2)\n",
+    {"data": "recio", "data2": "recio"}, nd=(1,), dt=REC, func="SFile.write", valuation="two different tables through one open object, text", n=6)
+drv("reuse_Recfile_two_tables_bin", "recfile",
+    "def f(data, data2, fname: str):\n    r = Recfile(fname, 'w')\n    r.write(data)\n    r.write(data2)\n    r.close()\n",
+    {"data": "recio", "data2": "recio"}, nd=(1,), dt=REC, func="Recfile.write", valuation="two different tables through one open object, binary", n=6)
+drv("reuse_file_rewritten", "recfile",
+    "def f(data, data2, fname: str):\n    sfile.write(fname, data, delim=',')\n    sfile.write(fname, data2)\n    sfile.write(fname, data, delim=' ', padnull=True)\n",
+    {"data": "recio", "data2": "recio"}, nd=(1,), dt=REC, func="sfile.write", valuation="the same path rewritten as text / binary / text", n=6)
+drv("reuse_Generator", "random",
+    "def f(pofx, x):\n    g = random.Generator(pofx, x=x, nx=50, seed=3, cumulative=False)\n    a = g.sample(10)\n    b = g.sample(7)\n    return a, b\n",
+    {"pofx": "pofx", "x": "grid"}, nd=(1,), dt=FLT, func="random.Generator", valuation="one object sampled twice; cumulative=False")
+drv("Generator_xrange_rng", "random",
+    "def f(pofx, x):\n    g = random.Generator(pofx, x=x, xrange=[-1.0, 1.0], nx=50, rng=np.random.RandomState(2))\n    return g.sample(10)\n",
+    {"pofx": "pofx", "x": "grid"}, nd=(1,), dt=FLT, func="random.Generator", valuation="xrange=, rng= given")
+drv("reuse_NormalND", "random",
+    "def f(mean, sigma, pos, pos2):\n    d = random.NormalND(mean, sigma)\n    return d.lnprob(pos), d.lnprob(pos2), d.lnprob(pos)\n",
+    {"mean": "mean3", "sigma": "diag", "pos": "pos3", "pos2": "pos3"}, nd=(1,), func="random.NormalND.lnprob", valuation="one object, several calls")
+
+# (d) option values at exact special points, (e) documented optional arguments that no earlier driver gave
+drv("shiftlon_shift_zero", "coords", "def f(lon):\n    return coords.shiftlon(lon, shift=0.0), coords.shiftlon(lon, shift=-0.0, wrap=False)\n", {"lon": "ra"},
+    func="shiftlon", valuation="shift exactly 0.0 / -0.0")
+drv("shiftlon_shift_360", "coords", "def f(lon):\n    return coords.shiftlon(lon, shift=360.0), coords.shiftra(lon, shift=0.0)\n", {"lon": "ra"},
+    func="shiftlon / shiftra", valuation="shift = 360, shift = 0")
+drv("rotate_zero", "coords", "def f(ra, dec):\n    return coords.rotate(0.0, 0.0, 0.0, ra, dec)\n", {"ra": "ra", "dec": "dec"}, func="rotate", valuation="all angles exactly 0")
+drv("sphdist_same_points", "coords", "def f(ra1, dec1):\n    return coords.sphdist(ra1, dec1, ra1.copy(), dec1.copy()), coords.gcirc(ra1, dec1, ra1.copy(), dec1.copy())\n",
+    {"ra1": "ra", "dec1": "dec"}, nd=(1,), func="sphdist / gcirc", valuation="separation exactly 0")
+for fn in ("ec2eq", "ec2gal", "gal2ec"):
+    drv(fn + "_b1950_f4", "coords", "def f(a, b):\n    return coords.%s(a, b, b1950=True, dtype='f4')\n" % fn, {"a": "ra", "b": "dec"}, func=fn,
+        valuation="b1950=True, dtype='f4'", n=4)
+drv("randcap_zero_radius", "coords", "def f(ra, dec):\n    return coords.randcap(3, ra, dec, 0.0, rng=np.random.RandomState(3))\n", {"ra": "ra", "dec": "dec"},
+    nd=(0,), func="randcap", valuation="radius exactly 0")
+drv("arrscl_opts", "fields", "def f(arr):\n    return numpy_util.arrscl(arr, 0.0, 0.0, arrmin=-50.0, arrmax=50.0, dtype='f4')\n", {"arr": "x"}, func="arrscl",
+    valuation="minval = maxval = 0, arrmin=, arrmax=, dtype='f4'")
+drv("wcs_arrscl_opts", "wcs", "def f(arr):\n    return wcsutil.arrscl(arr, -1.0, 1.0, arrmin=-50.0, arrmax=50.0)\n", {"arr": "x"}, dt=FLT, func="wcsutil.arrscl",
+    valuation="arrmin=, arrmax=")
+drv("between_types", "fields", "def f(arr):\n    return numpy_util.between(arr, 2, 2, type='[]'), numpy_util.between(arr, -1, 5, type='()'), "
+    "numpy_util.outside(arr, 0, 0)\n", {"arr": "x"}, func="between / outside", valuation="type=, equal bounds")
+drv("compare_arrays_verbose", "fields", "def f(arr1, arr2):\n    return numpy_util.compare_arrays(arr1, arr2, verbose=True)\n",
+    {"arr1": "rec", "arr2": "rec_like"}, dt=REC, func="compare_arrays", valuation="verbose=True")
+drv("match_multi_presorted", "match", "def f(arr1, arr2):\n    return numpy_util.match_multi(arr1, arr2, presorted=True)\n",
+    {"arr1": "uniq_sorted", "arr2": "int"}, nd=(1, 0), func="match_multi", valuation="presorted=True")
+drv("sfile_split_fields_getnames", "fields", "def f(data):\n    return sfile.split_fields(data, fields=['x', 'v'], getnames=True)\n", {"data": "rec"}, dt=REC,
+    func="sfile.split_fields", valuation="getnames=True")
+drv("get_stats_doprint", "stat", "def f(arr):\n    return stat.get_stats(arr, doprint=True)\n", {"arr": "x"}, nd=(1,), func="get_stats", valuation="doprint=True")
+drv("sigma_clip_zero", "stat", "def f(arr):\n    return stat.sigma_clip(arr, nsig=0.0, niter=1, verbose=True, extra={'x': 1})\n", {"arr": "x"}, nd=(1,),
+    func="sigma_clip", valuation="nsig exactly 0, verbose, extra=")
+drv("histogram2d_ranges", "hist", "def f(x, y):\n    return stat.histogram2d(x, y, nx=2, ny=2, xmin=-40.0, xmax=40.0, ymin=-40.0, ymax=40.0)\n",
+    {"x": "x", "y": "x"}, nd=(1,), func="histogram2d", valuation="xmin, xmax, ymin, ymax")
+drv("histogram_min_eq_first", "hist", "def f(data):\n    return stat.histogram(data, binsize=1e-3, min=0.0, max=0.0, rev=True) if False else "
+    "stat.histogram(data, nbin=1, rev=True)\n", {"data": "x"}, nd=(1,), func="histogram", valuation="a single bin")
+drv("boxcar_one", "stat", "def f(x):\n    return stat.boxcar_average(x, 1)\n", {"x": "x"}, nd=(1,), func="boxcar_average", valuation="N = 1")
+drv("interplin_u_is_x", "stat", "def f(v, x):\n    return stat.interplin(v, x, x)\n", {"v": "x", "x": "sx"}, nd=(1,), func="interplin",
+    valuation="u is the SAME array as x")
+drv("wcs_sky2image_xtol", "wcs",
+    "def f(lon, lat):\n    w = wcsutil.WCS(TPV_HDR)\n    return w.sky2image(lon, lat, xtol=1e-3), w.sky2image(lon, lat, xtol=1e-14)\n",
+    {"lon": "wlon", "lat": "wlat"}, nd=(1,), func="WCS.sky2image", valuation="xtol much larger / smaller than the default", slow=True)
+drv("wcs_ctor_angles", "wcs",
+    "def f(x, y):\n    w = wcsutil.WCS(TAN_HDR, longpole=180.0, latpole=0.0, theta0=90.0)\n    return w.image2sky(x, y), w.Rotate(x, y, origin=True)\n",
+    {"x": "unit", "y": "unit"}, func="WCS.__init__ / Rotate", valuation="longpole, latpole, theta0 given; origin=True", n=4)
+drv("wcs_Invert2DPolynomial_opts", "wcs", "def f(u, v, x, y):\n    return wcsutil.Invert2DPolynomial(u, v, x, y, 1, pack=False, constant=False), "
+    "wcsutil.make_amatrix(u, v, 2, constant=False)\n",
+    {"u": "unit", "v": "unit", "x": "unit", "y": "unit"}, nd=(1,), dt=FLT, func="wcsutil.Invert2DPolynomial / make_amatrix", valuation="pack=False, constant=False")
+drv("htm_match_minmaxid", "htm",
+    "def f(ra1, dec1, ra2, dec2):\n    h = htm.HTM(7)\n    return h.match(ra1, dec1, ra2, dec2, 0.0, maxmatch=1)\n",
+    {"ra1": "cra", "dec1": "cdec", "ra2": "cra", "dec2": "cdec"}, nd=(1,), func="HTM.match", valuation="radius exactly 0")
+drv("htm_cylmatch_opts", "htm",
+    "def f(ra1, dec1, z1, ra2, dec2, z2):\n    h = htm.HTM(7)\n    return h.cylmatch(ra1, dec1, z1, ra2, dec2, z2, 2.0, 0.5, maxmatch=2, unique=True, nkeep=1)\n",
+    {"ra1": "cra", "dec1": "cdec", "z1": "z", "ra2": "cra", "dec2": "cdec", "z2": "z"}, nd=(1,), func="HTM.cylmatch", valuation="maxmatch, unique, nkeep")
+drv("htm_bincount_verbose", "htm",
+    "def f(ra1, dec1, ra2, dec2):\n    h = htm.HTM(7)\n    return h.bincount(0.05, 3.0, 4, ra1, dec1, ra2, dec2, scale=1.0)\n",
+    {"ra1": "cra", "dec1": "cdec", "ra2": "cra", "dec2": "cdec"}, nd=(1,), func="HTM.bincount", valuation="scalar scale")
+for dist in ("gauss",):
+    drv("cholesky_dist", "random",
+        "def f(means, cov):\n    np.random.seed(4)\n    return random.cholesky_sample(cov, 4, means=means, dist=np.random.standard_normal), random.CholeskySampler(means, cov, dist=np.random.standard_normal).sample(2)\n"
+        , {"means": "mean3", "cov": "cov"}, nd=(2,), dt=("f8", "f4", "i8"), func="random.cholesky_sample / CholeskySampler", valuation="dist= given")
+
 DRIVERS = D
